@@ -649,8 +649,10 @@ impl<W: Write + io::Seek> ZipWriter<W> {
             *data_start = header_end;
 
             // Update extra field length in local file header.
-            let extra_field_length =
-                if file.large_file { 20 } else { 0 } + file.extra_field.len() as u16;
+            let extra_field_length: u16 = (if file.large_file { 20 } else { 0 }
+                + file.extra_field.len())
+            .try_into()
+            .map_err(|_| ZipError::InvalidArchive("Extra data field is too large"))?;
             writer.seek(io::SeekFrom::Start(file.header_start + 28))?;
             writer.write_u16::<LittleEndian>(extra_field_length)?;
             writer.seek(io::SeekFrom::Start(header_end))?;
@@ -1136,7 +1138,9 @@ fn write_local_file_header<T: Write>(writer: &mut T, file: &ZipFileData) -> ZipR
         .map_err(|_| ZipError::InvalidArchive("File name is too long"))?;
     writer.write_u16::<LittleEndian>(file_name_length)?;
     // extra field length
-    let extra_field_length = if file.large_file { 20 } else { 0 } + file.extra_field.len() as u16;
+    let extra_field_length: u16 = (if file.large_file { 20 } else { 0 } + file.extra_field.len())
+        .try_into()
+        .map_err(|_| ZipError::InvalidArchive("Extra data field is too large"))?;
     writer.write_u16::<LittleEndian>(extra_field_length)?;
     // file name
     writer.write_all(file.file_name.as_bytes())?;
@@ -1213,7 +1217,10 @@ fn write_central_directory_header<T: Write>(writer: &mut T, file: &ZipFileData) 
         .map_err(|_| ZipError::InvalidArchive("File name is too long"))?;
     writer.write_u16::<LittleEndian>(file_name_length)?;
     // extra field length
-    writer.write_u16::<LittleEndian>(zip64_extra_field_length + file.extra_field.len() as u16)?;
+    let extra_field_length: u16 = (zip64_extra_field_length as usize + file.extra_field.len())
+        .try_into()
+        .map_err(|_| ZipError::InvalidArchive("Extra data field is too large"))?;
+    writer.write_u16::<LittleEndian>(extra_field_length)?;
     // file comment length
     writer.write_u16::<LittleEndian>(0)?;
     // disk number start
